@@ -42,6 +42,7 @@ class Plan(object):
         self.features = set()
         self.has_external = False
         self.meta = {}
+        self.rename = None     # default renaming of sector / market codes for this topology (build(rename=...) overrides)
 
     def decl(self, key, make, needs=(), group=None, kind='sector'):
         self.decls.append(Decl(key, make, needs, group, kind))
@@ -132,6 +133,10 @@ def build(plans, order=None, rename=None, maxtime=2, interrupt=None):
     post-declaration calls; pos = number of declarations + 1: after them) - something else happening in the process meanwhile."""
     if isinstance(plans, Plan):
         plans = [plans]
+    if rename is None:
+        for p in plans:
+            if getattr(p, 'rename', None):
+                rename = dict(rename or {}, **p.rename)
     ctx = Ctx(rename)
     ctx.model = Model()
     ctx.model.MaxTime = maxtime
@@ -191,7 +196,7 @@ def economy(plan, cc, currency=None, gov='cons', hh='hh', caps=False, firm='fm0'
     if make_country:
         country(plan, cc, currency, kind)
     plan.features.update({'gov:' + gov, 'hh:' + hh, 'firm:' + firm})
-    portfolio = gov in ('tre_cb', 'tre_goldcb')
+    portfolio = gov in ('tre_cb', 'tre_goldcb', 'tre_only')
     # government
     if gov == 'cons':
         plan.decl(k('GOV'), lambda c: sd.ConsolidatedGovernment(c[cc], c.nm('GOV')), group=cc)
@@ -207,6 +212,10 @@ def economy(plan, cc, currency=None, gov='cons', hh='hh', caps=False, firm='fm0'
         plan.decl(k('TRE'), lambda c: sd.Treasury(c[cc], c.nm('TRE')), group=cc)
         plan.decl(k('CB'), lambda c: sd.GoldStandardCentralBank(c[cc], c.nm('CB'), treasury=c[k('TRE')],
                                                                 initial_gold_stock=100.), needs=(k('TRE'),), group=cc)
+        govkey, taxto = k('TRE'), 'TRE'
+    elif gov == 'tre_only':
+        # no central bank: the Treasury (which itself declares a zero money demand) issues money AND deposits
+        plan.decl(k('TRE'), lambda c: sd.Treasury(c[cc], c.nm('TRE')), group=cc)
         govkey, taxto = k('TRE'), 'TRE'
     elif gov == 'none':
         govkey, taxto = None, None     # taxed/served by the zone's single government (declared in another country)
@@ -245,7 +254,7 @@ def economy(plan, cc, currency=None, gov='cons', hh='hh', caps=False, firm='fm0'
         plan.decl(k('MON'), lambda c: sd.MoneyMarket(c[cc], issuer_short_code=c.nm('GOV')), group=cc, kind='market')
         plan.features.add('mm')
     if portfolio:
-        plan.decl(k('MON'), lambda c: sd.MoneyMarket(c[cc], issuer_short_code=c.nm('CB')), group=cc, kind='market')
+        plan.decl(k('MON'), lambda c: sd.MoneyMarket(c[cc], issuer_short_code=c.nm('TRE' if gov == 'tre_only' else 'CB')), group=cc, kind='market')
         plan.decl(k('DEP'), lambda c: sd.DepositMarket(c[cc], issuer_short_code=c.nm('TRE')), group=cc, kind='market')
         plan.features.update({'mm', 'dep'})
         if bonds:
@@ -305,8 +314,23 @@ def gift(plan, src, dst, name='GIFT', inc_src=True, inc_dst=True, amount=5.0):
     plan.meta.setdefault('gifts', []).append((src, dst, name))
 
 
-def imports(plan, cc_buyer, cc_seller, mu=0.2):
-    """Buyer's goods market gets the seller country's multi-output firm as a second supplier ('MU * income')."""
+def imports(plan, cc_buyer, cc_seller, mu=0.2, residual='domestic'):
+    """Buyer's goods market gets the seller country's multi-output firm as a second supplier ('MU * income').
+    residual='foreign': the FOREIGN firm is the market's residual supplier and the domestic firm gets the stated share."""
+    def post_foreign_residual(c):
+        mk = c[cc_buyer + '.GOOD']
+        mk.AddVariable('MU', 'Share bought at home', '%r' % mu)
+        mk.SetExogenous('MU', '[%r,]*%d' % (mu, EXO_LEN))
+        y = c[cc_buyer + '.HH'].GetVariableName('INC')
+        mk.AddSupplier(c[cc_seller + '.BUS'])
+        mk.AddSupplier(c[cc_buyer + '.BUS'], 'MU*{0}'.format(y))
+        c[cc_seller + '.BUS'].AddMarket(mk)
+    if residual == 'foreign':
+        plan.post(post_foreign_residual)
+        plan.features.update({'imports', 'foreign-residual-supplier'})
+        plan.meta.setdefault('imports', []).append((cc_buyer, cc_seller))
+        return
+
     def post(c):
         mk = c[cc_buyer + '.GOOD']
         if 'MU' not in mk.EquationBlock:
@@ -373,7 +397,7 @@ def reg_onecountry(plan, cc, currency=None):
     plan.meta[k('gov')] = k('TRE')
 
 
-def reg_federation(plan, prefix, currency=None, regions=('N', 'S'), place=None):
+def reg_federation(plan, prefix, currency=None, regions=('N', 'S'), place=None, last_region_default_currency=False):
     """REG2-style federation: a central-government Region + 1..2 Regions sharing its currency.
     place: where the zone-wide objects live, e.g. {'DEP': 'N'} puts the deposit market into region N instead of the
     central-government region (its issuer / the taxing sector stay where they are)."""
@@ -386,7 +410,12 @@ def reg_federation(plan, prefix, currency=None, regions=('N', 'S'), place=None):
     plan.decl(k(g, 'CB'), lambda c: sd.CentralBank(c[g], 'CB', treasury=c[k(g, 'TRE')]), needs=(k(g, 'TRE'),), group=g)
     rcodes = [prefix + r for r in regions]
     for rc in rcodes:
-        country(plan, rc, currency, kind='Region')
+        if last_region_default_currency and rc == rcodes[-1] and len(rcodes) > 1:
+            # Region() without a currency: it takes the model's default currency (that of the country declared just before it)
+            plan.decl(rc, lambda c, rc=rc: Region(c.model, c.nm(rc)), kind='country', needs=(rcodes[-2],))
+            plan.features.add('region-default-currency')
+        else:
+            country(plan, rc, currency, kind='Region')
     pm, pd, pt = place.get('MON', g), place.get('DEP', g), place.get('TF', g)
     if place:
         plan.features.add('zone-wide-object-outside-government-region')
@@ -551,6 +580,7 @@ def zoo(tier='quick'):
     Z.append(two_zone('xz_gift_extlast', {}, {}, [G('BB.HH', 'AA.HH')], order_ext_first=False))
     Z.append(two_zone('xz_imports', dict(firm='multi'), dict(firm='multi'), [I('AA', 'BB'), I('BB', 'AA')]))
     Z.append(two_zone('xz_imports_oneway_pc', dict(firm='multi', gov='tre_cb'), dict(firm='multi'), [I('AA', 'BB')]))
+    Z.append(two_zone('xz_imports_foreign_residual', dict(firm='multi'), dict(firm='multi', gov='tre_cb'), [lambda p: imports(p, 'AA', 'BB', residual='foreign')]))
     Z.append(two_zone('xz_gold_gift', dict(gov='gold_gov'), dict(gov='gold_gov'), [G('AA.HH', 'BB.HH')]))
     Z.append(two_zone('xz_goldcb_imports', dict(gov='tre_goldcb', firm='multi'), dict(gov='tre_goldcb', firm='multi'),
                       [I('AA', 'BB'), I('BB', 'AA')]))
@@ -582,6 +612,14 @@ def zoo(tier='quick'):
             sec.AddVariable('WRLD', 'uses names that are local here or model-level elsewhere', 'r + T')
     p.post(shadow_post)
     p.features.add('global-shadows-local')
+    Z.append(p)
+    # no central bank: the Treasury issues money and deposits; custom market / firm codes (no component of a variable name is the default spelling)
+    Z.append(single('pc_treasury_issues_money', gov='tre_only'))
+    p = single('sim_custom_codes', caps=True, firm='fm1')
+    p.rename = {'LAB': 'WORK', 'GOOD': 'WIDGET', 'BUS': 'MAKER', 'HH': 'FOLK'}
+    Z.append(p)
+    p = single('pc_custom_codes', gov='tre_cb')
+    p.rename = {'LAB': 'WORK', 'GOOD': 'WIDGET', 'BUS': 'MAKER'}
     Z.append(p)
     # a sector living in the external (numeraire) country sends to / receives from real-currency sectors
     p = two_zone('xz_numeraire_fund', {}, dict(caps=True, firm='fm1'), [])
